@@ -38,10 +38,11 @@ the node always comes up again** -/
 theorem step_inv {c : Cfg} {σ : RunSt} {g : Ghost} (hc : CfgOK c) (h : FInv c σ g) (op : Op) :
     ∃ σ', opStep c σ op = some σ' ∧ FInv c σ' (gstep c σ g op) := by
   cases op with
-  | mempool txs => exact ⟨_, rfl, step_mempool h txs⟩
-  | reap => exact ⟨_, rfl, step_reap h⟩
-  | produce => exact ⟨_, rfl, step_produce hc h .ok⟩
-  | produceFail => exact ⟨_, rfl, step_produce hc h .fail⟩
+  | mempool txs => exact ⟨_, rfl, step_mempool h txs false⟩
+  | mempoolDrain txs => exact ⟨_, rfl, step_mempool h txs true⟩
+  | reap => exact ⟨_, rfl, step_mempool (step_reap h) _ σ.drain⟩
+  | produce => exact ⟨_, rfl, step_mempool (step_produce hc h .ok) σ.mempool σ.drain⟩
+  | produceFail => exact ⟨_, rfl, step_mempool (step_produce hc h .fail) σ.mempool σ.drain⟩
   | restart => exact step_recover h _
   | crash k => exact step_recover h k
 
@@ -129,6 +130,7 @@ theorem gstep_crashed {c : Cfg} {σ : RunSt} {g : Ghost} {op : Op} (h : op.isRes
     (gstep c σ g op).crashed = g.crashed := by
   cases op with
   | mempool _ => rfl
+  | mempoolDrain _ => rfl
   | reap => simp only [gstep]; split <;> rfl
   | produce => simp only [gstep]; split <;> rfl
   | produceFail => simp only [gstep]; split <;> rfl
@@ -151,6 +153,7 @@ theorem gstep_lost {c : Cfg} {σ : RunSt} {g : Ghost} {op : Op} (hi : FInv c σ 
     (gstep c σ g op).lost = g.lost := by
   cases op with
   | mempool _ => rfl
+  | mempoolDrain _ => rfl
   | reap => simp only [gstep]; split <;> rfl
   | produce => simp only [gstep]; split <;> rfl
   | produceFail => simp only [gstep]; split <;> rfl
